@@ -84,7 +84,17 @@ func (r Rec) String() string {
 type kvState struct {
 	E   bool
 	Val string
-	Ver string // "?" = written by PutMany, not observed yet
+	Ver string // "?<prev>" = written by PutMany and not observed yet; <prev> is the version it replaced ("" if none / unknown)
+}
+
+func symbolic(v string) bool { return len(v) > 0 && v[0] == '?' }
+
+// symAfter is the version state after a PutMany item replaced st.
+func symAfter(st kvState) string {
+	if st.E && !symbolic(st.Ver) {
+		return "?" + st.Ver
+	}
+	return "?"
 }
 
 // KVModel is the per-key sequential specification (partitioned by key).
@@ -134,7 +144,11 @@ var KVModel = porcupine.Model{
 			if !st.E || st.Val != out.Val {
 				return false, st
 			}
-			if st.Ver == "?" {
+			if symbolic(st.Ver) {
+				// first observation of a PutMany item: it must not carry the version it replaced
+				if prev := st.Ver[1:]; prev != "" && prev == out.Ver {
+					return false, st
+				}
 				return true, kvState{true, st.Val, out.Ver}
 			}
 			return st.Ver == out.Ver, st
@@ -147,16 +161,19 @@ var KVModel = porcupine.Model{
 			if out.Err != ENil {
 				return false, st
 			}
-			return true, kvState{true, in.Val, "?"}
+			return true, kvState{true, in.Val, symAfter(st)}
 		case KCas:
 			switch out.Err {
 			case ENil:
-				if !st.E || (st.Ver != "?" && st.Ver != in.Exp) {
+				if !st.E || (!symbolic(st.Ver) && st.Ver != in.Exp) {
 					return false, st
+				}
+				if symbolic(st.Ver) && st.Ver[1:] != "" && st.Ver[1:] == in.Exp {
+					return false, st // succeeded with the version that the PutMany item replaced
 				}
 				return true, kvState{true, in.Val, out.Ver}
 			case EConflict:
-				return st.E && (st.Ver == "?" || st.Ver != in.Exp), st
+				return st.E && (symbolic(st.Ver) || st.Ver != in.Exp), st
 			case ENotExist:
 				return !st.E, st
 			}
@@ -172,7 +189,7 @@ var KVModel = porcupine.Model{
 		case KWait:
 			switch out.Err {
 			case ENil: // the key exists with a version different from the given one
-				return st.E && (st.Ver == "?" || st.Ver != in.Exp), st
+				return st.E && (symbolic(st.Ver) || st.Ver != in.Exp), st
 			case ENotExist:
 				return !st.E, st
 			case ECtx: // legality of a context error is decided outside (cancel must precede the return)
